@@ -248,6 +248,23 @@ func (e *Exec) modelFor(extra *Term) (string, map[string]string) {
 			return r, m
 		}
 		ns.Close()
+		if r == "unknown" && secondSolver != "" && !strings.Contains(e.solver.bin, "cvc5") {
+			ns = e.solver.FreshBin(secondSolver, 3*e.fullTimeout)
+			r = ns.Check()
+			e.solver.Queries++
+			e.solver.Time += ns.Time
+			e.solver.Errors += ns.Errors
+			e.escalations++
+			if r == "sat" {
+				old := e.solver
+				e.solver = ns
+				m := e.model()
+				e.solver = old
+				ns.Close()
+				return r, m
+			}
+			ns.Close()
+		}
 	}
 	if r == "unknown" {
 		e.unknowns++
